@@ -42,6 +42,16 @@ def check_C07(rep, known):
     scen_job(rep, 'ScenShoot', 'C07', [r'C07\.', r'build', r'varmap'], known)
 
 
+def check_C15(rep, known):
+    scen_job(rep, 'ScenShoot', 'C15', [r'C15\.', r'build', r'varmap'], known)
+    mc_job(rep, 'MC_Bernstein', 'MC_Bernstein.cfg')
+    # schemes without a polynomial guarantee must be rejected (fault catalogue entry inf_no_guarantee)
+    recs, st = tlc.generate('ScenFault', 'ScenFault.cfg', 'C20', rep.tier, rep.seed, parts=1)
+    recs = [r for r in recs if r['sc']['fault'] == 'inf_no_guarantee']
+    outs = engine.pool_map('faults', 'replay', recs)
+    engine.process_results(rep, recs, outs, [r'C20\.inf_no_guarantee'], known)
+
+
 def check_C08(rep, known):
     scen_job(rep, 'ScenShoot', 'C08', [r'C08\.', r'build', r'varmap'], known)
 
@@ -127,7 +137,7 @@ def check_C18(rep, known):
     life_job(rep, [r'C18\.', r'C13\.d:outcome@\d+:save'], known)
 
 
-CHECKS = {'C08': check_C08, 'C07': check_C07, 'C02': check_C02, 'C06': check_C06, 'C01': check_C01, 'C04': check_C04, 'C05': check_C05, 'C13': check_C13, 'C16': check_C16, 'C20': check_C20, 'C18': check_C18, 'C09': check_C09, 'C10': check_C10, 'C11': check_C11, 'C14': check_C14}
+CHECKS = {'C15': check_C15, 'C08': check_C08, 'C07': check_C07, 'C02': check_C02, 'C06': check_C06, 'C01': check_C01, 'C04': check_C04, 'C05': check_C05, 'C13': check_C13, 'C16': check_C16, 'C20': check_C20, 'C18': check_C18, 'C09': check_C09, 'C10': check_C10, 'C11': check_C11, 'C14': check_C14}
 ENGINE = {p: ['life', 'replay'] for p in ('C13', 'C18')}
 ENGINE['C20'] = ['faults', 'replay']
 ENGINE['C16'] = ['der', 'replay']
